@@ -119,3 +119,32 @@ def try_sites(fn, pv):
             continue
         out.append((bi, pv.operand_term(t["args"][0], bi, "term")))
     return out
+
+
+def cond_variants(prog, pv, c):
+    """for a condition on an enum discriminant: (subject term, set of variant names the condition allows)"""
+    op, kind, v = c
+    if op[0] != "discr":
+        return None
+    adt = pv.discr_adt.get(op)
+    names = prog.enums.get(adt) if adt else None
+    if not names:
+        return None
+    if kind == "eq":
+        return op[1], {names.get(v, "?%s" % v)}
+    if kind == "in":
+        return op[1], {names.get(x, "?%s" % x) for x in v}
+    if kind == "ne":
+        return op[1], {n for d, n in names.items() if d not in v}
+    return None
+
+
+def path_variants(prog, pv, conds):
+    """{subject term: allowed variant-name set} from all discriminant conditions (intersection)"""
+    out = {}
+    for c in conds:
+        r = cond_variants(prog, pv, c)
+        if r:
+            subj, names = r
+            out[subj] = out[subj] & names if subj in out else set(names)
+    return out
